@@ -441,9 +441,9 @@ type FuncSpec struct {
 	TrustedEnsures  []Clause
 	TrustedModifies []*Expr
 	TrustedWhy      string
-	InternalEnsures []Clause // proved for the body, not exported to callers (may mention ghost variables)
+	InternalEnsures []Clause       // proved for the body, not exported to callers (may mention ghost variables)
 	VacuousOK       map[int]string // return ordinals (source order) expected to be unreachable under the contract
-	Unguarded       []string // "Type.field" reads exempt from guarded_by in this function (with reason)
+	Unguarded       []string       // "Type.field" reads exempt from guarded_by in this function (with reason)
 	UnguardedWhy    []string
 }
 
@@ -540,12 +540,12 @@ type Lemma struct {
 
 type SpecFile struct {
 	Footprints map[string][]*Expr
-	Globals []GhostGlobal
-	Macros []Macro
-	Funcs  []*FuncSpec
-	Types  []*TypeSpec
-	Lemmas []*Lemma
-	Prel   []string // prelude names this file needs
+	Globals    []GhostGlobal
+	Macros     []Macro
+	Funcs      []*FuncSpec
+	Types      []*TypeSpec
+	Lemmas     []*Lemma
+	Prel       []string // prelude names this file needs
 }
 
 type GhostGlobal struct {
@@ -562,12 +562,12 @@ func (f *FuncSpec) annotationOnly() bool {
 
 type SpecDB struct {
 	Footprints map[string]map[string][]*Expr // package path -> name -> targets
-	Globals []GhostGlobal
-	Macros map[string][]Macro // per package path
-	Funcs  map[string]*FuncSpec // key: pkgpath + "::" + Key   (ext: "ext::" + fn.String())
-	Types  map[string]*TypeSpec // pkgpath::Name
-	Lemmas []*Lemma
-	Files  []string
+	Globals    []GhostGlobal
+	Macros     map[string][]Macro   // per package path
+	Funcs      map[string]*FuncSpec // key: pkgpath + "::" + Key   (ext: "ext::" + fn.String())
+	Types      map[string]*TypeSpec // pkgpath::Name
+	Lemmas     []*Lemma
+	Files      []string
 }
 
 func splitProps(s string) []string {
